@@ -5,7 +5,7 @@ import os
 import re
 import shlex
 
-from .extract import Source, FnText, BlockText, ExtractError, type_text, format_templates, split_format
+from .extract import Source, FnText, BlockText, ExtractError, type_text, format_templates, split_format, raw_item_text
 from .rustlex import norm
 
 VERIF = os.path.dirname(os.path.dirname(os.path.abspath(__file__)))
@@ -90,6 +90,12 @@ class Unit:
                 continue
             if s.startswith('//@ PROPS'):
                 pending_props = s.split()[2:]
+                i += 1
+                continue
+            if s.startswith('//@ EXTRACT-RAW'):
+                kv = parse_kv(s[len('//@ EXTRACT-RAW'):])
+                src = self.src(kv)
+                self.emit(raw_item_text(src, kv['item'], self.manifest), 'repo:%s:%s' % (src.display, kv['item']))
                 i += 1
                 continue
             if s.startswith('//@ EXTRACT-TYPE'):
